@@ -71,7 +71,7 @@ from dromedary.local import file_kind
 
 from .. import cache_utf8, debug, errors, osutils, trace
 from .. import revision as _mod_revision
-from ..lock import LogicalLockResult, cant_unlock_not_held
+from ..lock import LogicalLockResult
 from ..lockdir import LockDir
 from ..mutabletree import BadReferenceTarget, MutableTree
 from ..osutils import isdir, pathjoin, realpath, safe_unicode
@@ -1343,10 +1343,6 @@ class DirStateWorkingTree(InventoryWorkingTree):
 
     def unlock(self):
         """Unlock in format 4 trees needs to write the entire dirstate."""
-        if not self._control_files.is_locked():
-            # Do not release the branch lock (taken by somebody else) from the
-            # finally block below when this tree holds no lock.
-            return cant_unlock_not_held(self)
         if self._control_files._lock_count == 1:
             # do non-implementation specific cleanup
             self._cleanup()
